@@ -20,7 +20,7 @@ ASSUMPTIONS = [
     "release-timing equality is asserted only where all populations joined by transfers have the same n; otherwise the occupancy bound with the largest n and the per-bin replay decide",
     "the per-bin matrices TimedCompartment._vals / TimedLink._vals named in the property's anchors are read for the replay",
 ]
-BUDGET = {"quick": 3000, "thorough": 24000}  # thorough = 8x quick: a depth that was run to completion, quiet, at seed 1 (deterministic given the seed)
+BUDGET = {"quick": 3000, "thorough": 12000}  # thorough = 4x quick: a depth that was run to completion, quiet, at seed 1 (deterministic given the seed)
 TIME_CAP = {"quick": 75, "thorough": 1500}
 PROFILE = {"p_programs": 0.2, "p_second_type": 0.15, "p_timed": 1.0, "max_timed_motifs": 2, "p_junction": 0.3, "max_ord": 3, "p_function": 0.25, "extreme": 0.1, "p_timed_yfactor": 0.35, "min_steps": 6, "max_steps": 40, "p_transfer": 0.6}
 
